@@ -133,4 +133,4 @@ def run(ctx):
     return ctx.finish("bin/build-coq; coqc Audit_Props_C19/Obl_C19/CasesC19*; go test -overlay TestVerif_C19S (cmd/keymasterd) + TestVerif_C19 (cmd/keymaster, CGO_ENABLED=0) + TestVerif_C19A (lib/client/sshagent)",
                       COMMON_TRUSTED + TRUSTED,
                       ["'no byte of the private key is sent' is a taint theorem over the model's request builders plus a byte search on the recorded traffic of real runs and a syntactic table of the serialisation sites; it is not a proof about Go's encoders",
-                       "second-factor paths driven: password-only and local TOTP; VIP push, Okta, U2F device (stubbed) and the web-browser login are not"])
+                       "login paths driven: password-only, password + local TOTP, and the web-browser login (lib/client/webauth) with the CLI token in the token file; VIP push, Okta, the U2F device (stubbed) and the branch of the web login that reads the token from the terminal (needs a tty on fd 0) are not"])
